@@ -100,7 +100,7 @@ class Scratch:
                 fh.write("\n")
                 for f in files:
                     mod = "verif_" + os.path.splitext(os.path.basename(f))[0]
-                    fh.write('#[cfg(kani)] #[path = "%s"] mod %s;\n' % (f, mod))
+                    fh.write('#[cfg(kani)] #[path = "%s"] pub(crate) mod %s;\n' % (f, mod))
         # crate-level feature gates some harnesses need are not required so far
         return self
     def __exit__(self, *a):
